@@ -423,3 +423,49 @@ def closure_index_type(facts):
         o.check(b, "closure-graph", b.line, n >= 1, "%d from_edges call(s)" % n, "Graph::from_edges not found in steiner_tree")
     o.r.floor = 2
     return o.r
+
+
+# ------------------------------------------------------------------------------------------------ C05 / C06 (undirected Csr: stored twice, counted once)
+def csr_mirror_enumeration(facts):
+    o = Obl("PAIR-MIRROR", "Csr: when try_add_edge can insert TWO column entries (the mirror of an undirected non-loop edge) while it increments the edge counter "
+                           "once, the whole-graph enumerator EdgeReferences::next must skip one of the two copies (an orientation test between the entry and "
+                           "source_index one of whose outcomes goes back to the scan instead of yielding) - so that edge_references() yields edge_count() elements")
+    mirrored = None
+    for b in o.need_fn(facts, "csr::Csr::try_add_edge"):
+        ins = [i for i, t in b.calls() if callee_name(t["f"]).endswith("Csr::add_edge_")]
+        inc = [i for i, j, st in b.stmts() if any(isinstance(x, dict) and x.get("n") == "edge_count" for x in st["lhs"]["p"])]
+        two_ins = any(a != c and c in reach(b, a) for a in ins for c in ins)
+        two_inc = any(a != c and c in reach(b, a) for a in inc for c in inc)
+        mirrored = two_ins and not two_inc and len(inc) >= 1
+        o.check(b, "insert-vs-count", b.line, bool(ins) and bool(inc), "%d column insertion site(s), %d counter increment(s); a path inserts twice and counts once: %s"
+                % (len(ins), len(inc), mirrored), "add_edge_ calls / edge_count increment not found in Csr::try_add_edge")
+    for b in o.need_fn(facts, "«csr::EdgeReferences as core::iter::Iterator»::next"):
+        if not mirrored:
+            o.check(b, "mirror-skip", b.line, True, "no mirrored storage: nothing to skip", "")
+            continue
+        succ = b.cfg()[0]
+        yields = [i for i, j, st in return_some_sites(b)]
+        heads = [i for i, t in b.calls() if last_seg(t["f"]["path"]) == "next"]
+        ok = False
+        for i, t in b.calls():
+            np_ = norm_path(t["f"]["path"])
+            if not np_.startswith("core::cmp::PartialOrd::") and not np_.startswith("core::cmp::Ord::cmp"):
+                continue
+            e = b.expr({"copy": t["dest"]} if False else t["args"][0], 8), b.expr(t["args"][1], 8)
+            if not any(("field", "source_index") in leaves(x) for x in e):
+                continue
+            # the switch on the comparison's result: one outcome must return to the scan without yielding
+            sw = succ[i][0] if succ[i] else None
+            while sw is not None and b.blocks[sw]["term"]["k"] == "goto":
+                sw = succ[sw][0]
+            if sw is None or b.blocks[sw]["term"]["k"] != "switch":
+                continue
+            for tgt in succ[sw]:
+                r_ = reach(b, tgt, avoid=set(heads))
+                if not (set(yields) & r_):
+                    ok = True
+        o.check(b, "mirror-skip", b.line, ok, "one orientation outcome (entry vs source_index) skips the entry",
+                "an undirected non-loop edge is stored in the rows of both endpoints and counted once, but EdgeReferences::next yields every column entry: "
+                "edge_references() reports each such edge twice ((a, b) and (b, a)) while edge_count() counts it once")
+    o.r.floor = 2
+    return o.r
